@@ -1,7 +1,7 @@
 SPECIFICATION Spec
 CONSTANTS
   U <- MC_Usm
-  K = 3
+  K = 2
   CfgSet <- MC_CfgShapeMap
   Perm = FALSE
 INVARIANT InvC10
